@@ -421,6 +421,7 @@ def report(mod, prop, tier, seed, units, results, wall, extra):
         "second_solver": {"queries_rechecked_x2": tot.cross_checked, "agreed": tot.cross_agreed, "disagreed": tot.cross_disagreed, "other_solver_unknown_or_timeout": tot.cross_other_inconclusive, "solvers": "z3 4.8.12 (/usr/bin/z3), cvc5 1.0 binary; ours: z3 5.1 python"},
         "units": len(units),
         "units_run": len(results),
+        "slowest_units": [[r["unit"], r.get("wall_s", 0.0)] for r in sorted(results, key=lambda r: -r.get("wall_s", 0.0))[:8]],
         "functions_encoded": sorted(functions),
         "bounds": getattr(mod, "BOUNDS", {}).get(tier, getattr(mod, "BOUNDS", {})),
         "outside_the_bounds": getattr(mod, "OUTSIDE", []),
